@@ -206,7 +206,7 @@ func ProtectOuter(m *abs.Msg, first uint8, inner []byte, s Suite, k DirKeys, iv,
 // AssembleProtected builds header | SK{IV | ct | ICV} around a ciphertext the caller made itself (e.g. one whose
 // padding blocks were chosen so that IV|ct has a wanted checksum).
 func AssembleProtected(m *abs.Msg, first uint8, iv, ct []byte, s Suite, ka []byte) []byte {
-	skLen := 4 + 16 + len(ct) + s.ICVLen()
+	skLen := 4 + len(iv) + len(ct) + s.ICVLen()
 	w := &wbuf{}
 	w.raw(EncodeHeader(m, abs.PSK, 28+skLen))
 	w.u8(first)
